@@ -53,7 +53,7 @@ class Kit(object):
     def build(self, K, rng, slot=0, permute=True):
         m = self.machine
         if m == "M-CI":
-            return gen_ci.build_ops(K, rng, slot=slot, permute=permute)
+            return gen_ci.build_ops(K, rng, slot=slot, permute=permute, noise=0.06)
         if m == "M-IM":
             return gen_im.build_ops(K, rng, slot=slot, permute=permute)
         if m == "M-TI":
